@@ -202,7 +202,7 @@ func (r *resolver) pairs(n *yaml.Node, mstack map[*yaml.Node]bool, depth int) ([
 		if depth > 0 {
 			r.out.NestedMerges++
 		}
-		srcs, err := mergeSources(v, 0)
+		srcs, err := r.mergeSources(v, map[*yaml.Node]bool{})
 		if err != nil {
 			return nil, err
 		}
@@ -226,19 +226,27 @@ func (r *resolver) pairs(n *yaml.Node, mstack map[*yaml.Node]bool, depth int) ([
 	return out, nil
 }
 
-func mergeSources(v *yaml.Node, depth int) ([]*yaml.Node, error) {
-	if depth > 50 {
-		return nil, ErrOutside
+// mergeSources flattens a merge value (alias, mapping, or sequences of those)
+// into its source mappings in order. A sequence or alias that is reached again
+// while it is still being flattened is a merge cycle: it contributes nothing.
+func (r *resolver) mergeSources(v *yaml.Node, onPath map[*yaml.Node]bool) ([]*yaml.Node, error) {
+	if onPath[v] {
+		r.out.MergeCycle = true
+		return nil, nil
 	}
 	switch v.Kind {
 	case yaml.AliasNode:
-		return mergeSources(v.Alias, depth+1)
+		onPath[v] = true
+		defer delete(onPath, v)
+		return r.mergeSources(v.Alias, onPath)
 	case yaml.MappingNode:
 		return []*yaml.Node{v}, nil
 	case yaml.SequenceNode:
+		onPath[v] = true
+		defer delete(onPath, v)
 		var out []*yaml.Node
 		for _, c := range v.Content {
-			s, err := mergeSources(c, depth+1)
+			s, err := r.mergeSources(c, onPath)
 			if err != nil {
 				return nil, err
 			}
